@@ -9,7 +9,7 @@
     [v_corr]: the model predicts all three observations;
     [v_prop]: the three observations are equal (the property itself: same
     decision, same view, same hand-over);
-    guards 1..9 = C13-F1..F9, evaluated on the queries the pipeline asks. *)
+    guards 1..9, 11 = C13-F1..F9, F11, evaluated on the queries the pipeline asks. *)
 From HV Require Export Base.Prelude Base.GoUrl C13.Http C13.Model C13.Proofs.
 Open Scope string_scope.
 
@@ -33,6 +33,8 @@ Record case := {
                                           which of the (candidate) repairs fixes/C13-Fx.diff are in it *)
   k_L : lreq;
   k_rule : option krule;               (* the rule that matches by construction, with the raw captures *)
+  k_env_rule : option krule;           (* the same for a lookup with the query string glued to the path (C13-F11): a trailing
+                                          wildcard swallows "?query" into its capture, a literal last segment misses *)
   k_escpath : string;                  (* net/http: req.URL.EscapedPath() *)
   k_ct : string;                       (* the Content-Type the decoders were asked with *)
   k_dec_body : string;                 (* decoder's answer on the body, JSON text *)
@@ -102,10 +104,12 @@ Definition rule_of (kr : krule) : rule :=
      r_on_error := option_map (fun pe => redirect_prog (fst pe) (snd pe)) (kr_redirect kr) |}.
 
 Definition find_of (c : case) : lview -> option (rule * list (string * string)) :=
-  fun lv => match k_rule c with
-            | None => None
-            | Some kr => if String.eqb (lk_path lv) (l_rawpath (k_L c)) then Some (rule_of kr, kr_caps kr) else None
-            end.
+  fun lv =>
+    if String.eqb (lk_path lv) (l_rawpath (k_L c)) then
+      match k_rule c with Some kr => Some (rule_of kr, kr_caps kr) | None => None end
+    else if String.eqb (lk_path lv) (forwarded_uri (k_L c)) then
+      match k_env_rule c with Some kr => Some (rule_of kr, kr_caps kr) | None => None end
+    else None.
 
 Definition probes_of (c : case) : list query := match k_rule c with Some kr => kr_probes kr | None => [] end.
 
@@ -125,7 +129,7 @@ Definition expected_prx (fx : fixes) (c : case) : eobs :=
   expected c true (build_http (k_L c)) (acc_http (decode_of c) (k_L c)) (finalize_proxy (fx_F3 fx)).
 Definition expected_env (fx : fixes) (c : case) : eobs :=
   let E := mk_envoy (k_L c) in
-  expected c (fx_F1 fx) (build_envoy (fx_F4 fx) E) (acc_envoy (decode_of c) fx E) finalize_envoy.
+  expected c (fx_F1 fx) (build_envoy (fx_F4 fx) (norm_envoy (fx_F11 fx) E)) (acc_envoy (decode_of c) fx E) finalize_envoy.
 
 (** the queries the HTTP run asks (conditions, templates) and the probes; the pipeline's adds *)
 Definition asked (c : case) : slashes * list query * list add :=
@@ -163,7 +167,8 @@ Definition check (fx : fixes) (c : case) : verdict :=
        (6%Z, negb (fx_F6 fx) && existsb g_F6_query qs);
        (7%Z, negb (fx_F7 fx) && existsb (g_F7_query (decode_of c) L) qs);
        (8%Z, existsb g_F8_query qs);
-       (9%Z, negb (fx_F9 fx) && existsb (g_F9_query L) qs) ] |}.
+       (9%Z, negb (fx_F9 fx) && existsb (g_F9_query L) qs);
+       (11%Z, negb (fx_F11 fx) && g_F11 L) ] |}.
 
 (** the variant of the model is chosen by what the sentinel requests of the run observed; whether a
     pinned variant is acceptable is decided by findings/C13.json (a guard is only honoured while its
@@ -177,20 +182,22 @@ Definition check_f1fixed (c : case) : verdict := check (set_F1 true (k_fx c)) c.
 (** /repo: the six committed repairs are in (F1 b2286d8, F2 7c3e9fc, F3 a5ef279, F4 ae6db4f, F6 06faa19,
     F7 19923cd): those are expected whatever the sentinels say (a regression is an ordinary VIOLATION);
     the candidate repair of C13-F9 by sentinel *)
-Definition check_repo (c : case) : verdict := check (set_F9 (fx_F9 (k_fx c)) all_fixed) c.
+Definition check_repo (c : case) : verdict := check (set_F11 (fx_F11 (k_fx c)) (set_F9 (fx_F9 (k_fx c)) all_fixed)) c.
 
 (* short constructors for the generated case files *)
-Definition lrq m t h p q hs b pe pk :=
-  {| l_method := m; l_tls := t; l_host := h; l_rawpath := p; l_query := q; l_hdrs := hs; l_body := b; l_peer := pe; l_pack := pk |}.
+Definition lrq m t h p q hs b pe pk qp :=
+  {| l_method := m; l_tls := t; l_host := h; l_rawpath := p; l_query := q; l_hdrs := hs; l_body := b; l_peer := pe; l_pack := pk;
+     l_qpath := qp |}.
 Definition cnd q c := {| cd_q := q; cd_c := c |}.
 Definition stp i ck items := {| st_if := i; st_cookie := ck; st_items := items |}.
 Definition rul id sl az steps probes caps rd :=
   {| kr_id := id; kr_slashes := sl; kr_authz := az; kr_steps := steps; kr_probes := probes; kr_caps := caps; kr_redirect := rd |}.
 Definition hov hs cs := {| ho_headers := hs; ho_cookies := cs |}.
 Definition eob s r v h ok loc := {| eo_status := s; eo_rule := r; eo_view := v; eo_ho := h; eo_ok := ok; eo_loc := loc |}.
-Definition fxs f1 f2 f3 f4 f6 f7 f9 := {| fx_F1 := f1; fx_F2 := f2; fx_F3 := f3; fx_F4 := f4; fx_F6 := f6; fx_F7 := f7; fx_F9 := f9 |}.
-Definition cs fx L r ep ct db de d p e :=
-  {| k_fx := fx; k_L := L; k_rule := r; k_escpath := ep; k_ct := ct; k_dec_body := db; k_dec_empty := de; k_dec := d; k_prx := p; k_env := e |}.
+Definition fxs f1 f2 f3 f4 f6 f7 f9 f11 :=
+  {| fx_F1 := f1; fx_F2 := f2; fx_F3 := f3; fx_F4 := f4; fx_F6 := f6; fx_F7 := f7; fx_F9 := f9; fx_F11 := f11 |}.
+Definition cs fx L r er ep ct db de d p e :=
+  {| k_fx := fx; k_L := L; k_rule := r; k_env_rule := er; k_escpath := ep; k_ct := ct; k_dec_body := db; k_dec_empty := de; k_dec := d; k_prx := p; k_env := e |}.
 
 (* ------------------------------------------------------------------ second stream: the decision service as deployed *)
 
